@@ -182,18 +182,20 @@ class CoreDriver:
         x.ctl.send(raw)
 
     def _fs_gate(self, s, op, segs, kt):
-        plan = self.gate_plan.get(s)
-        if plan is None or s in self.held:
-            return None
-        if plan[0] is not None and plan[0] != op:
-            return None
-        plan[1] -= 1
-        if plan[1] > 0:
-            return None
-        del self.gate_plan[s]
-        fut = self.loop.create_future()
-        self.held[s] = fut
-        return fut
+        """Gate plans are keyed by (session, operation) - several calls of one session can be held at once
+        (a handler and a worker); the key (s, None) matches any operation."""
+        for key in ((s, op), (s, None)):
+            plan = self.gate_plan.get(key)
+            if plan is None or key in self.held:
+                continue
+            plan[1] -= 1
+            if plan[1] > 0:
+                return None
+            del self.gate_plan[key]
+            fut = self.loop.create_future()
+            self.held[key] = fut
+            return fut
+        return None
 
     def _fs_fault(self, s, op, segs, kt, ko):
         plan = self.fault_plan.get(s)
@@ -310,7 +312,7 @@ class CoreDriver:
                 net.log("ServerClose")
                 self._closing = self.loop.spawn(self.w.server.close())
         elif op == "gate":
-            self.gate_plan[st[1]] = [st[2], st[3]]
+            self.gate_plan[(st[1], st[2])] = [st[2], st[3]]
             return True
         elif op == "lgate":
             self.lgate_plan[st[1]] = st[2]
@@ -318,13 +320,22 @@ class CoreDriver:
         elif op == "fault":
             self.fault_plan[st[1]] = [st[2], st[3]]
             return True
-        elif op == "release":
-            self.gate_plan.pop(st[1], None)
-            f = self.held.pop(st[1], None)
-            if f is None or f.done():
+        elif op in ("release", "failrelease"):
+            # release (or fail: the held backend calls raise OSError at that instant) everything held for the session
+            for key in [k for k in self.gate_plan if k[0] == st[1]]:
+                del self.gate_plan[key]
+            keys = [k for k, f in self.held.items() if k[0] == st[1]]
+            n = 0
+            for k in keys:
+                f = self.held.pop(k)
+                if not f.done():
+                    n += 1
+                    if op == "release":
+                        f.set_result(None)
+                    else:
+                        f.set_exception(OSError("spyfs: the held call fails"))
+            if not n:
                 ok = False
-            else:
-                f.set_result(None)
         elif op == "lrelease":
             self.lgate_plan.pop(st[1], None)
             f = self.lheld.pop(st[1], None)
@@ -376,7 +387,7 @@ class CoreDriver:
         todo = {s: list(sc) for s, sc in scripts.items()}
         done = []
         while True:
-            held = [s for s, f in self.held.items() if not f.done()]
+            held = sorted({k[0] for k, f in self.held.items() if not f.done()})
             ready = [s for s, sc in todo.items() if sc and s not in held]
             if not held and not ready:
                 break
@@ -388,7 +399,7 @@ class CoreDriver:
                     done.append(st)
                 continue
             st = todo[s].pop(0)
-            if s not in self.gate_plan and rng.random() < gate_prob:
+            if not any(k[0] == s for k in self.gate_plan) and rng.random() < gate_prob:
                 g = ["gate", s, None, 1]
                 self.step(g)
                 done.append(g)
@@ -399,7 +410,7 @@ class CoreDriver:
     def finish(self):
         """Release every gate (so that nothing stays blocked artificially) and take a last snapshot."""
         for d in (self.held, self.lheld):
-            for s, f in list(d.items()):
+            for s, f in list(d.items()):  # keys are (session, op) for backend gates, session for listener gates
                 if not f.done():
                     f.set_result(None)
             d.clear()
@@ -469,7 +480,7 @@ class CoreDriver:
         dsock = [c.session for c in net.conns if c.kind == "data" and not (c.srv.closing or c.srv.closed)]
         files = [h.session for h in w.ctl.open_handles()]
         lsn = [[l.owner, l.port] for l in net.open_listeners() if l.owner]
-        gated = sorted({s for s, f in self.held.items() if not f.done()} | {s for s, f in self.lheld.items() if not f.done()})
+        gated = sorted({k[0] for k, f in self.held.items() if not f.done()} | {s for s, f in self.lheld.items() if not f.done()})
         net.log("Snap", used=used, uused=uused, pool=pool, haspool=haspool, table=sorted(table), hastable=hastable, dsock=sorted(dsock),
                 files=sorted(files), lsn=sorted(lsn), sess=sess, gated=gated, hastree=True, tree=w.snapshot(),
                 ntasks=len(self.loop.all_tasks()))
@@ -573,6 +584,8 @@ def translate(events, world):
                 out.append({"ev": "FsQuery", "s": s, "t": t, "op": op, "p": p, "res": res})
             elif op in MUT_OPS:
                 out.append({"ev": "FsMut", "s": s, "t": t, "op": op, "p": p, "q": e.get("to", ["~"]), "res": res})
+            elif e.get("late"):
+                out.append({"ev": "FsFile", "s": s, "t": t, "op": "late", "p": p, "res": "fault", "mode": "", "off": 0, "data": []})
             else:
                 out.append({"ev": "FsFile", "s": s, "t": t, "op": op, "p": p, "res": res, "mode": e.get("mode", ""),
                             "off": e.get("off", 0), "data": e.get("data", []) if op == "write" else []})
